@@ -53,7 +53,8 @@ Print Assumptions C06_stmt_print_injective.
 
 (* Characters.  A text of a token list is  g0 ++ s1 ++ g1 ++ ... ++ sn ++ gn  ([render_text]) where si is any
    SPELLING of token i ([spell]: any letter case of keywords, identifiers and the s of a placeholder; leading
-   zeros in integers and decimals; blanks / comments inside `%( name )s`) and gi any SEPARATOR ([sep]: whitespace
+   zeros in integers and decimals; either quote character around a string that does not contain it; blanks /
+   comments inside `%( name )s`) and gi any SEPARATOR ([sep]: whitespace
    incl. newlines and the Unicode spaces, `/* ... */` comments, `; ...` comments ended by a newline; the last one
    may end in an open `; ...`), gi non-empty at least where the computable test [needs_space ti ti+1] holds
    (word characters incl. '_' after a word / number / `#name` / placeholder; digits then '.' or '-' (1. and
@@ -90,9 +91,9 @@ Theorem C06_text_roundtrip_canonical : forall s : stmt,
 Proof. exact text_roundtrip_canonical. Qed.
 Print Assumptions C06_text_roundtrip_canonical.
 
-(* Not covered by the spelling relation (tested by the correspondence only): writing a string with the other
-   quote character and a decimal without its integer part (`.5` for `0.5`) -- the lexer then returns a token
-   that differs in a flag the parser ignores. *)
+(* Not covered by the spelling relation (tested by the correspondence only): writing a decimal without its
+   zero integer part (`.5` for `0.5`) -- the lexer then returns a different token (the printer always writes
+   the integer part; the two differ only as a GROUP BY / ORDER BY column, where `0.5` is not accepted). *)
 
 (* ---------------------------------------------------------------------- *)
 (* Examples: the hypotheses are satisfiable and the precedence chain
@@ -188,7 +189,15 @@ Example C06_text_example_hypotheses :
 Proof.
   assert (Sp : forall c, is_space c = true -> sep [c]) by (intros c H; apply sep_space; [exact H|apply sep_nil]).
   split; [|split].
-  - repeat constructor; vm_compute; try reflexivity; try discriminate; repeat split.
+  - apply Forall2_cons; [vm_compute; reflexivity|].
+    apply Forall2_cons; [vm_compute; repeat split|].
+    apply Forall2_cons; [reflexivity|].
+    apply Forall2_cons; [vm_compute; repeat split; discriminate|].
+    apply Forall2_cons; [vm_compute; reflexivity|].
+    apply Forall2_cons; [vm_compute; repeat split|].
+    apply Forall2_cons; [reflexivity|].
+    apply Forall2_cons; [exists 39%Z; split; [right; reflexivity|split; reflexivity]|].
+    apply Forall2_nil.
   - apply Sp. reflexivity.
   - cbn [seps_ok]. repeat split; try (intros H; vm_compute in H; discriminate H); try (intros _; reflexivity).
     + apply Sp. reflexivity.
